@@ -132,7 +132,20 @@ def _ob_multipass(direction):
                 X = (1 - e * c) / (1 - e)
                 h.check("lemma_ratio_is_power", h.eq((1 - m * c) / (1 - m), X ** P))
             back = hx.MultiPassNTU(m, c, P)
-            h.check("single_of_multi_is_single", h.eq(back, e))
+            if c != 1 and h.symbolic:
+                # explicit derivation, each step from the listed facts alone (the full path query is a degree-2P polynomial problem that
+                # the solver decides or not depending on its mood):  R > 0;  F^P = R (root axiom);  R = X^P;  F, X > 0  =>  F = X;
+                # then the code's expression in F is the single-pass value
+                R = (1 - m * c) / (1 - m)
+                F = R ** (1 / P)                              # the same term the code builds
+                X = (1 - e * c) / (1 - e)
+                h.derive("lemma_ratio_positive", R > 0, [m > 0, m < 1, c >= 0, c <= 1], opaque=[m])
+                h.derive("lemma_single_ratio_positive", X > 0, [e > 0, e < 1, c >= 0, c <= 1])
+                h.derive("lemma_root_power", And(F > 0, h.eq(F ** P, R)), [R > 0, Implies(R > 0, And(F > 0, h.eq(F ** P, R)))], opaque=[F, R])
+                h.derive("lemma_root_is_single_ratio", h.eq(F, X), [And(F > 0, h.eq(F ** P, R)), h.eq(R, X ** P), X > 0], opaque=[F, X, R])
+                h.derive("single_of_multi_is_single", h.eq(back, e), [h.eq(F, X), e > 0, e < 1, c >= 0, c <= 1, Not(h.eq(c, 1.0))], opaque=[F])
+            else:
+                h.check("single_of_multi_is_single", h.eq(back, e))
         else:
             s = hx.MultiPassNTU(e, c, P)
             h.check("single_in_unit_interval", And(s > 0, s < 1))
